@@ -61,7 +61,8 @@ Definition from_mapping_pre (cb : N) (m : mapping) : Prop :=
    (m_source m = SRC_BACKING /\ m_clen m = None /\ m_copied m = false) \/
    (m_source m = SRC_ZERO /\ m_clen m = None /\ (m_copied m = true -> m_offset m <> None)) \/
    (m_source m = SRC_COMPRESSED /\ m_copied m = false /\
-      exists o len, m_offset m = Some o /\ m_clen m = Some len /\ 1 <= len < 2 ^ cb) \/
+      exists o len, m_offset m = Some o /\ m_clen m = Some len /\ 1 <= len <= 2 ^ 23 /\
+        (len - 1 + N.land o 511) / 512 < 2 ^ (cb - 8)) \/
    m_source m = SRC_UNALLOC).
 
 
